@@ -26,17 +26,17 @@ type vRandJob struct {
 }
 
 type vRandDriver struct {
-	h        *vHarness
-	r        *rand.Rand
-	job      vRandJob
-	st       map[int]string // last state reported per connection
-	open     []int          // open call numbers
-	callDl   map[int]int    // call -> absolute deadline tick (0 none)
-	callM    map[int]string
-	keys     []int // keys that were (probably) bound
-	blocked  []int // event indices of blocked picks
-	i        int
-	failing  bool
+	h       *vHarness
+	r       *rand.Rand
+	job     vRandJob
+	st      map[int]string // last state reported per connection
+	open    []int          // open call numbers
+	callDl  map[int]int    // call -> absolute deadline tick (0 none)
+	callM   map[int]string
+	keys    []int // keys that were (probably) bound
+	blocked []int // event indices of blocked picks
+	i       int
+	failing bool
 }
 
 func (d *vRandDriver) pickW(ws []int) int {
